@@ -167,6 +167,22 @@ func tri3d(r *vlib.Run) {
 		}
 		exercise3(c, s, 40, 25, 0)
 		checkMulti3(c, s, 12)
+		// balls a million to thirty million times larger than the triangle whose surface cuts
+		// through it: a point of the triangle lies 0.15..0.4 triangle sizes inside the ball, so
+		// the two touch, whichever of the triangle's corners happen to be outside
+		size := s.ref.Size()
+		for i := 0; i < 4; i++ {
+			a, b := rng.Float64(), rng.Float64()
+			if a+b > 1 {
+				a, b = 1-a, 1-b
+			}
+			q := t[0].Add(t[1].Sub(t[0]).Scale(a)).Add(t[2].Sub(t[0]).Scale(b))
+			r := size * math.Pow(10, 6+1.5*rng.Float64())
+			delta := size * (0.15 + 0.25*rng.Float64())
+			ctr := q.Add(randUnit3(rng).Scale(r - delta))
+			c.Count("tri3d.huge_balls_cutting_through_the_triangle", 1)
+			checkBall3(c, s, ctr, r)
+		}
 	})
 }
 
